@@ -72,6 +72,39 @@ func diffViews(a, b c16View) string {
 	return ""
 }
 
+// jarsDiffer: do the session and cookie jars of the two worlds differ (time-valued keys apart)?
+func jarsDiffer(a, b *World) string {
+	canon := func(rw *jarRW) string {
+		rw.mu.Lock()
+		defer rw.mu.Unlock()
+		m := map[string]map[string]string{}
+		for br, j := range rw.jars {
+			x := map[string]string{}
+			for k, v := range j {
+				if k == "last_action" || k == "sms_last" {
+					v = "T"
+				}
+				x[k] = v
+			}
+			if len(x) > 0 {
+				m[br] = x
+			}
+		}
+		bs, _ := json.Marshal(m)
+		return string(bs)
+	}
+	if x, y := canon(a.sess), canon(b.sess); x != y {
+		return "session jars " + x + " vs " + y
+	}
+	if x, y := canon(a.cook), canon(b.cook); x != y {
+		return "cookie jars differ"
+	}
+	if len(a.st.users) != len(b.st.users) {
+		return "number of accounts differs"
+	}
+	return ""
+}
+
 func c16One(id int, seed int64, kind string) c16Case {
 	rng := rand.New(rand.NewSource(seed))
 	cfg := genCfg(rng, "general")
@@ -231,6 +264,13 @@ func c16One(id int, seed int64, kind string) c16Case {
 	defer r2.w.close()
 	for _, s := range script {
 		r2.exec(s)
+	}
+	// the two worlds must stand in the same state before the pair is compared: a prefix with TOTP steps runs at two
+	// different real times and a code computed near a 30-second boundary can be accepted in one world and not in the
+	// other (seen once in a thorough soak) - such a pair says nothing about the two final requests
+	if d := jarsDiffer(r1.w, r2.w); d != "" {
+		c.Skip = "prefix not reproducible: " + d
+		return c
 	}
 	if kind == "unknown" || kind == "unknown-otp" {
 		kn := "u1"
